@@ -499,4 +499,52 @@ theorem main_loop_arms_are_the_models (c : Cfg) (u : U) (hp : u.phase = .running
     simp only [guardMain, applyMain]
     cases swp <;> cases isp <;> simp (config := { decide := true })
 
+/-! ## `PausableSleep` itself -/
+
+/-- `PausableSleep` (Model/Unit.PSleep, corresponded in-process with the real type on a paused clock: p_timer) is the model's
+    `Timer` plus a remembered duration: advancing the clock is `Timer.tick`, and what is due is the same -/
+theorem psleep_is_timer (s : PSleep) (d : Nat) :
+    (s.advance d).toTimer = s.toTimer.tick d ∧ (s.toTimer.due = if s.paused then none else some s.remaining) ∧
+    (s.fired = true ↔ s.toTimer.due = some 0) := by
+  refine ⟨?_, rfl, ?_⟩
+  · unfold PSleep.advance PSleep.toTimer Timer.tick
+    split <;> simp_all
+  · unfold PSleep.fired PSleep.toTimer Timer.due
+    cases s.paused <;> simp
+
+/-- **stopped time does not count against a `PausableSleep`, and the configured period survives pauses**: over any sequence of
+    clock advances, pauses and resumes (no reset), the remembered duration is unchanged — so re-arming after an expiry gives the
+    configured period again — and the time counted against the sleep is exactly the time that passed while it was running -/
+theorem sleep_counts_running_time_only : ∀ (ops : List SleepOp) (s s' : PSleep),
+    (∀ o ∈ ops, (∃ d, o = .advance d) ∨ o = .pause ∨ o = .resume) → s.run ops = some s' →
+    s'.duration = s.duration ∧ s'.resetLast.remaining = s.duration ∧ s'.remaining ≤ s.remaining := by
+  intro ops
+  induction ops with
+  | nil => intro s s' _ h; simp only [PSleep.run, Option.some.injEq] at h; subst h; exact ⟨rfl, rfl, Nat.le_refl _⟩
+  | cons o os ih =>
+    intro s s' hall h
+    simp only [PSleep.run] at h
+    split at h
+    · cases h
+    · rename_i s1 hs1
+      have hrest := ih s1 s' (fun o' ho' => hall o' (List.mem_cons_of_mem _ ho')) h
+      have hstep : s1.duration = s.duration ∧ s1.remaining ≤ s.remaining := by
+        rcases hall o (List.mem_cons_self ..) with ⟨d, rfl⟩ | rfl | rfl
+        · simp only [PSleep.apply, Option.some.injEq] at hs1; subst hs1
+          unfold PSleep.advance; split <;> simp
+        · simp only [PSleep.apply, PSleep.pause] at hs1
+          split at hs1
+          · cases hs1
+          · simp only [Option.some.injEq] at hs1; subst hs1; simp
+        · simp only [PSleep.apply, PSleep.resume] at hs1
+          split at hs1
+          · simp only [Option.some.injEq] at hs1; subst hs1; simp
+          · cases hs1
+      obtain ⟨a, b, c⟩ := hrest
+      exact ⟨by rw [a, hstep.1], by rw [b, hstep.1], Nat.le_trans c hstep.2⟩
+
+-- not vacuous: a 100 ms sleep; 60 ms pass, paused for 500 ms, 39 ms more: not due; one more: due; re-armed: 100 ms again
+example : ((PSleep.new 100).run [.advance 60, .pause, .advance 500, .resume, .advance 39]).map (fun s => (s.fired, s.remaining)) = some (false, 1) ∧
+    ((PSleep.new 100).run [.advance 60, .pause, .advance 500, .resume, .advance 40, .resetLast]).map (fun s => (s.fired, s.remaining)) = some (false, 100) := by decide
+
 end NextestModel.C12
